@@ -8,8 +8,10 @@ use serde_json::{json, Value};
 const RULE: &str = "a valid project (2-4 rule groups of 1-4 valid rules incl. blank and comment-only lines, 3-6 words, optional alias lines) gets exactly ONE fault from a catalogue of rule syntax faults, rule runtime faults (each with a word that makes it fire), alias faults and word faults, planted at every position in turn: (group, line) for rules - before, between and after the valid lines -, every alias line, every word index. run must return Err; the matching formatter (format_rule_error / format_alias_error / format_word_error) is called under catch_unwind and must return; its text is parsed: `@ Rule g, Line l` (resp. romaniser/deromaniser line n, resp. the quoted word) must be the planted position, the quoted line must be the planted text, and every caret must lie in columns [0, chars(line)+1). Non-trivial = the fault produced an Err that names a position; distinct = distinct (fault, position, project).";
 
 // (fault line, words that make it fire - for runtime faults)
-const SYNTAX_FAULTS: [&str; 30] = ["a >", "> e", "a > e / _ _", "[+foo] > a", "a > [+voice", "a > e / _##", "a = e", "{a > e", "a > e |", "a > e / #_#s", "(a) > e", "a > [tone:12345]", "a > e / _ (C,3:1)", "a > [+tone]", "a > e / ",
-    "a b", "a > e ;", "a > e / _ {}", "a > -", "a > e..", "K > a", "a > e / :{ _t p_ }:", "a, > e / _#, #_, _t", "* > *", "* > &", "a > [long]", "a > e / _ [+cons", "a:[+long > e", "a > e / _ ⟨t", "% > % / __#__"];
+const SYNTAX_FAULTS: [&str; 35] = ["a >", "> e", "a > e / _ _", "[+foo] > a", "a > [+voice", "a > e / _##", "a = e", "{a > e", "a > e |", "a > e / #_#s", "(a) > e", "a > [tone:12345]", "a > e / _ (C,3:1)", "a > [+tone]", "a > e / ",
+    "a b", "a > e ;", "a > e / _ {}", "a > -", "a > e..", "K > a", "a > e / :{ _t p_ }:", "a, > e / _#, #_, _t", "* > *", "* > &", "a > [long]", "a > e / _ [+cons", "a:[+long > e", "a > e / _ ⟨t", "% > % / __#__",
+    // a diacritic that its segment cannot take, alone and after one that was accepted (seed C17-e: two positions in one error)
+    "tʱ > d", "tʷʱ > d", "t̬ʰ > d / _a", "a > n̥ʲʶ", "a > e / _pʲʷʱ"];
 const RUNTIME_FAULTS: [(&str, &str); 16] = [("a > [+place]", "pa.ta"), ("V > [-long, +overlong]", "pa.ta"), ("{p, t} > {b}", "pa.ta"), ("a > [αvoice]", "pa.ta"), ("% > a", "pa.ta"), ("$ > a", "pa.ta"), ("a > 1", "pa.ta"), ("* > a", "pa.ta"),
     ("* > [+nasal] / a_", "pa.ta"), ("a > %", "pa.ta"), ("V > [-stress, +sec.stress]", "pa.ta"), ("a > [-root]", "pa.ta"), ("a > {e, o}", "pa.ta"), ("p a > & / _ :{ _t, _k }: ", "pa.ta"), ("% a > &", "pa.ta"), ("a > *", "a")];
 const ALIAS_FAULTS_FROM: [&str; 8] = ["a >", "> b", "a > \\q", "a > @{nonsense}", "a > \\u{110000}", "[+foo] > b", "a:[+long > b", "a = b"];
